@@ -32,6 +32,14 @@ func (k msgServer) SubmitInvalidity(ctx context.Context, msg *types.MsgSubmitInv
 	if publishedData.Status != types.Status_STATUS_CHALLENGE_PERIOD {
 		return nil, types.ErrNotInChallengePeriod
 	}
+	// one invalidity per sender and data: a second one would be charged again and overwrite the first
+	if senderBytes, err := k.addressCodec.StringToBytes(msg.Sender); err != nil {
+		return nil, err
+	} else if _, found, err := k.GetInvalidity(ctx, msg.MetadataUri, senderBytes); err != nil {
+		return nil, err
+	} else if found {
+		return nil, types.ErrInvalidityAlreadyExist
+	}
 
 	params, err := k.Params.Get(ctx)
 	if err != nil {
